@@ -1,0 +1,379 @@
+//go:build verif
+
+package goatlang
+
+// Verification hooks. Compiled only with -tags verif; they add exported
+// wrappers around unexported pieces so that a harness outside the package can
+// drive them. Nothing here changes behaviour of the package.
+
+import (
+	"fmt"
+	"io/fs"
+	"sort"
+	"strings"
+)
+
+// ---------------------------------------------------------------- tokens / tree
+
+type VerifTok struct {
+	Symbol, Text string
+	Line         int
+}
+
+func VerifTokenize(src string) ([]VerifTok, error) {
+	toks, err := tokenize("v", src)
+	var res []VerifTok
+	for _, t := range toks {
+		res = append(res, VerifTok{t.Symbol, t.Text, t.Pos.Line})
+	}
+	return res, err
+}
+
+// VerifParse returns the tree as an S-expression (token.String form), one
+// string per top-level statement.
+func VerifParse(src string) (res []string, err error) {
+	toks, err := tokenize("v", src)
+	if err != nil {
+		return nil, fmt.Errorf("error in tokenize: %w", err)
+	}
+	tree, err := parse(toks)
+	if err != nil {
+		return nil, fmt.Errorf("error in parse: %w", err)
+	}
+	for _, t := range tree.Tokens {
+		res = append(res, verifTreeString(t))
+	}
+	return res, nil
+}
+
+func verifTreeString(t *token) string {
+	if t == nil {
+		return "<nil>"
+	}
+	if len(t.Tokens) > 0 {
+		var tt []string
+		for _, v := range t.Tokens {
+			tt = append(tt, verifTreeString(v))
+		}
+		return fmt.Sprintf("(%v %v)", t.Text, strings.Join(tt, " "))
+	}
+	return t.Text
+}
+
+// VerifParseTokens parses a list of (symbol,text) pairs (an "(eof)" token is
+// appended) and returns the S-expressions.
+func VerifParseTokens(in []VerifTok) (res []string, err error) {
+	var toks []*token
+	for _, t := range in {
+		tk := &token{Symbol: t.Symbol, Text: t.Text}
+		tk.Pos.Line = t.Line
+		toks = append(toks, tk)
+	}
+	toks = append(toks, &token{Symbol: "(eof)", Text: "(eof)"})
+	tree, err := parse(toks)
+	if err != nil {
+		return nil, err
+	}
+	for _, t := range tree.Tokens {
+		res = append(res, verifTreeString(t))
+	}
+	return res, nil
+}
+
+// ---------------------------------------------------------------- instructions
+
+type VerifInstr struct {
+	Code    string
+	A, B, C int
+	Line    int
+	Func    string
+	Text    string // instruction.String(globals)
+}
+
+func verifFromInstr(g *lookup, in []instruction) []VerifInstr {
+	res := make([]VerifInstr, len(in))
+	for n, i := range in {
+		_, fn, line, _ := i.Pos.info(g)
+		res[n] = VerifInstr{Code: i.Code.String(), A: int(i.A), B: int(i.B), C: int(i.C), Line: line, Func: fn, Text: i.String(g)}
+	}
+	return res
+}
+
+var verifNameToCode = func() map[string]code {
+	m := map[string]code{}
+	for c, s := range codeToString {
+		m[s] = c
+	}
+	return m
+}()
+
+func verifToInstr(g *lookup, in []VerifInstr) ([]instruction, error) {
+	res := make([]instruction, len(in))
+	for n, i := range in {
+		c, ok := verifNameToCode[i.Code]
+		if !ok {
+			return nil, fmt.Errorf("unknown code %q", i.Code)
+		}
+		res[n] = instruction{Code: c, A: reg(i.A), B: reg(i.B), C: reg(i.C), Pos: newPos(g, "v", i.Func, i.Line, 1)}
+	}
+	return res, nil
+}
+
+// VerifCodeNames lists every opcode name with its number.
+func VerifCodeNames() map[string]int {
+	m := map[string]int{}
+	for c, s := range codeToString {
+		m[s] = int(c)
+	}
+	return m
+}
+
+// VerifCompile tokenizes, parses and compiles src the way Eval compiles the
+// main chunk (package main), with the optimizer on or off.
+func (v *VM) VerifCompile(src string, optimize bool) (ins []VerifInstr, slots int, err error) {
+	toks, err := tokenize("v", src)
+	if err != nil {
+		return nil, 0, fmt.Errorf("error in tokenize: %w", err)
+	}
+	tree, err := parse(toks)
+	if err != nil {
+		return nil, 0, fmt.Errorf("error in parse: %w", err)
+	}
+	cmp := &compiler{Globals: v.globals, Locals: newLookup(), Imports: map[string]string{}, Optimize: optimize, PackageName: "main", ExportName: "main"}
+	codes, slots, err := cmp.run(tree)
+	if err != nil {
+		return nil, 0, fmt.Errorf("error in compile: %w", err)
+	}
+	return verifFromInstr(v.globals, codes), slots, nil
+}
+
+// VerifEval is Eval without imports, with a choice of optimizer setting.
+func (v *VM) VerifEval(src string, optimize bool) (rets []Value, err error) {
+	toks, err := tokenize("v", src)
+	if err != nil {
+		return nil, fmt.Errorf("error in tokenize: %w", err)
+	}
+	tree, err := parse(toks)
+	if err != nil {
+		return nil, fmt.Errorf("error in parse: %w", err)
+	}
+	cmp := &compiler{Globals: v.globals, Locals: newLookup(), Imports: map[string]string{}, Optimize: optimize, PackageName: "main", ExportName: "main"}
+	codes, slots, err := cmp.run(tree)
+	if err != nil {
+		return nil, fmt.Errorf("error in compile: %w", err)
+	}
+	rets, err = v.run(codes, slots)
+	if err != nil {
+		return nil, fmt.Errorf("error in run: %w", err)
+	}
+	return rets, nil
+}
+
+// VerifLoad is Load with a choice of optimizer setting.
+func (v *VM) VerifLoad(sys fs.FS, arg string, optimize bool) error {
+	f := loadPackage
+	if strings.HasSuffix(arg, ".go") {
+		f = loadFile
+	}
+	pkgs, err := f(sys, arg)
+	if err != nil {
+		return fmt.Errorf("error in load: %w", err)
+	}
+	codes, slots, err := compilePkgs(v.globals, pkgs, optimize)
+	if err != nil {
+		return fmt.Errorf("error in compile: %w", err)
+	}
+	rets, err := v.run(codes, slots)
+	if err != nil {
+		return fmt.Errorf("error in run: %w", err)
+	}
+	if len(rets) > 0 {
+		return fmt.Errorf("unexpected returns: %v", rets)
+	}
+	return nil
+}
+
+// VerifOptimize runs one optimize() (two peephole passes) or a single pass.
+func (v *VM) VerifOptimize(in []VerifInstr, passes int) ([]VerifInstr, error) {
+	ins, err := verifToInstr(v.globals, in)
+	if err != nil {
+		return nil, err
+	}
+	c := &compiler{Globals: v.globals, Optimize: true}
+	for i := 0; i < passes; i++ {
+		ins = c.doOptimize(ins)
+	}
+	return verifFromInstr(v.globals, ins), nil
+}
+
+// VerifRun executes a raw instruction list on a fresh frame whose first
+// `slots` stack entries are `locals` (padded with nil) and whose operand stack
+// starts with `stack`. It returns the final locals and operand stack.
+func (v *VM) VerifRun(in []VerifInstr, slots int, locals, stack []Value) (outLocals, outStack []Value, err error) {
+	ins, err := verifToInstr(v.globals, in)
+	if err != nil {
+		return nil, nil, err
+	}
+	st := make([]Value, slots, slots+len(stack)+8)
+	copy(st, locals)
+	st = append(st, stack...)
+	vm := VM{globals: v.globals, stdout: v.stdout, stack: st, frame: frame{Codes: ins}}
+	defer func() {
+		if r := recover(); r != nil {
+			err = vm.btErr(r)
+		}
+	}()
+	vm.exec()
+	return vm.stack[:slots], vm.stack[slots:], nil
+}
+
+// VerifGlobalIndex interns a name in the globals table.
+func (v *VM) VerifGlobalIndex(key string) int { return v.globals.Index(key) }
+func (v *VM) VerifGlobalKey(idx int) string   { return v.globals.Key(idx) }
+func (v *VM) VerifGlobalsLen() int            { return v.globals.Len() }
+
+// ---------------------------------------------------------------- values
+
+func VerifUntyped(n int) Value             { return newUntypedInt(n) }
+func VerifRaw(t int, num float64) Value    { return Value{t: Type(t), num: num} }
+func (v Value) VerifTag() int              { return int(v.t) }
+func (v Value) VerifNum() float64          { return v.num }
+func (v Value) VerifAssign(t int) Value    { return v.assign(Type(t)) }
+func (v Value) VerifConvert(t int) Value   { return v.convert(Type(t)) }
+func (v Value) VerifTypeStr(vm *VM) string { return v.t.str(vm.globals) }
+func VerifMixType(a, b int) int            { return int(mixType(Type(a), Type(b))) }
+func VerifZero(t int) Value                { return newZero(Type(t)) }
+func VerifTypeTags() map[string]int {
+	return map[string]int{"nil": int(TypeNil), "untyped": int(untypedInt), "uint8": int(TypeUint8), "int8": int(TypeInt8),
+		"uint32": int(TypeUint32), "int32": int(TypeInt32), "float64": int(TypeFloat64), "bool": int(TypeBool), "string": int(TypeString)}
+}
+
+func (v Value) VerifOp(op string, b Value) (res Value, err error) {
+	defer func() {
+		if r := recover(); r != nil {
+			err = fmt.Errorf("%v", r)
+		}
+	}()
+	switch op {
+	case "add":
+		return v.opAdd(b), nil
+	case "sub":
+		return v.opSub(b), nil
+	case "mul":
+		return v.opMul(b), nil
+	case "div":
+		return v.opDiv(b), nil
+	case "mod":
+		return v.opMod(b), nil
+	case "lsh":
+		return v.opBitLsh(b), nil
+	case "rsh":
+		return v.opBitRsh(b), nil
+	case "and":
+		return v.opBitAnd(b), nil
+	case "or":
+		return v.opBitOr(b), nil
+	case "xor":
+		return v.opBitXor(b), nil
+	case "lt":
+		return v.opLt(b), nil
+	case "lte":
+		return v.opLte(b), nil
+	case "eq":
+		return v.opEq(b), nil
+	case "neq":
+		return v.opNeq(b), nil
+	}
+	return Value{}, fmt.Errorf("unknown op %q", op)
+}
+
+// ---------------------------------------------------------------- intMap
+
+type VerifIntMap struct{ m intMap }
+
+func VerifNewIntMap(alloc int) *VerifIntMap    { return &VerifIntMap{m: newIntMap(alloc)} }
+func (m *VerifIntMap) Set(k int, v Value)      { m.m.Set(k, v) }
+func (m *VerifIntMap) Assign(k int, v Value)   { m.m.Assign(k, v) }
+func (m *VerifIntMap) Get(k int) (Value, bool) { return m.m.Get(k) }
+func (m *VerifIntMap) Delete(k int)            { m.m.Delete(k) }
+func (m *VerifIntMap) Len() int                { return m.m.Len() }
+func (m *VerifIntMap) Size() int               { return m.m.size }
+func (m *VerifIntMap) Copy() *VerifIntMap      { return &VerifIntMap{m: m.m.Copy()} }
+
+// Pairs returns (distance,key) for every slot.
+func (m *VerifIntMap) Pairs() [][2]int {
+	res := make([][2]int, len(m.m.pairs))
+	for i, p := range m.m.pairs {
+		res[i] = [2]int{p.distance, p.key}
+	}
+	return res
+}
+
+// ---------------------------------------------------------------- scopes (compiler + lookup)
+
+type VerifScopes struct{ c *compiler }
+
+func VerifNewScopes() *VerifScopes {
+	return &VerifScopes{c: &compiler{Globals: newLookup(), Locals: newLookup(), Imports: map[string]string{}}}
+}
+func (s *VerifScopes) Begin()               { s.c.Begin() }
+func (s *VerifScopes) End()                 { s.c.End() }
+func (s *VerifScopes) Shadow(k string) int  { return s.c.Shadow(k) }
+func (s *VerifScopes) Index(k string) int   { return s.c.Locals.Index(k) }
+func (s *VerifScopes) Exists(k string) bool { return s.c.Locals.Exists(k) }
+func (s *VerifScopes) Len() int             { return s.c.Locals.Len() }
+func (s *VerifScopes) Cap() int             { return s.c.Locals.Cap() }
+func (s *VerifScopes) Depth() int           { return len(s.c.scope) }
+
+// Table returns the current key->index table, sorted by key.
+func (s *VerifScopes) Table() []string {
+	var res []string
+	for k, n := range s.c.Locals.keyToIndex {
+		res = append(res, fmt.Sprintf("%s=%d", k, n))
+	}
+	sort.Strings(res)
+	return res
+}
+
+// ---------------------------------------------------------------- loader / tree sort
+
+// VerifLoadOrder returns the package order computed by the loader for a
+// package path (or a .go file), as the list of package names in run order.
+func VerifLoadOrder(sys fs.FS, arg string) (order []string, err error) {
+	f := loadPackage
+	if strings.HasSuffix(arg, ".go") {
+		f = loadFile
+	}
+	pkgs, err := f(sys, arg)
+	if err != nil {
+		return nil, fmt.Errorf("error in load: %w", err)
+	}
+	for _, p := range pkgs {
+		name := "?"
+		for _, t := range p.Tokens {
+			if t.Symbol == "package" {
+				name = t.Tokens[len(t.Tokens)-1].Text
+				break
+			}
+		}
+		order = append(order, name)
+	}
+	return order, nil
+}
+
+// VerifTreeSort sorts a list of top-level node kinds with treeSort and returns
+// the resulting permutation (indexes into the input).
+func VerifTreeSort(kinds []string) []int {
+	top := &token{Text: "_"}
+	for i, k := range kinds {
+		top.Append(&token{Symbol: k, Text: fmt.Sprint(i)})
+	}
+	treeSort(top)
+	res := make([]int, len(kinds))
+	for i, t := range top.Tokens {
+		fmt.Sscan(t.Text, &res[i])
+	}
+	return res
+}
+
+func VerifCheckConstraint(s string) (bool, error) { return checkConstraint(s) }
